@@ -79,8 +79,9 @@ class X64Tables:
     """x86-64 page tables in physical memory (4- or 5-level)."""
     P, PSE = 1, 0x80
 
-    def __init__(self, levels, alloc, flags=0x63, cbit=0):
+    def __init__(self, levels, alloc, flags=0x63, cbit=0, pat=None):
         self.levels, self.alloc, self.flags, self.cbit = levels, alloc, flags, cbit
+        self.pat = pat                   # callable -> bool: give this large page the PAT bit (bit 12 of a 2M/1G entry)
         self.tables = {}                 # phys page -> {index: entry}
         self.root = self.new_table()
 
@@ -102,7 +103,7 @@ class X64Tables:
             assert not (e & self.PSE and l in (2, 3)), "mapping below a huge page"
             t = e & 0x000ffffffffff000 & ~self.cbit
         idx = (va >> (12 + 9 * (lvl - 1))) & 0x1ff
-        self.tables[t][idx] = pa | self.flags | self.cbit | (self.PSE if lvl > 1 else 0)
+        self.tables[t][idx] = pa | self.flags | self.cbit | (self.PSE if lvl > 1 else 0) | (0x1000 if lvl > 1 and self.pat and self.pat() else 0)
 
     def walk(self, va):
         bits = 12 + 9 * self.levels
@@ -260,7 +261,10 @@ def gen_x86_64_linux(rng, force=None):
     sme = f.get("sme", rng.random() < 0.15)
     cbit = (1 << 47) if sme else 0
     d["sme"] = sme
-    tb = X64Tables(levels, alloc, cbit=cbit)
+    # large pages with a non-default memory type carry the PAT bit in bit 12 of the 2M/1G entry (not an address bit)
+    patp = f.get("pat", pick(rng, [0, 0, 0, 0.2, 1.0]))
+    d["pat"] = patp
+    tb = X64Tables(levels, alloc, cbit=cbit, pat=(lambda: rng.random() < patp) if patp else None)
     # the root table lives in the kernel image
     root_va = text_lo + tsize - 0x4000
     def text_pa(va):
@@ -417,7 +421,9 @@ def gen_x86_64_xen(rng, force=None):
         p = pool[0]; pool[0] += 0x1000
         assert p < xphys + tsize + 8 * MB
         return p
-    tb = X64Tables(4, alloc)
+    patp = f.get("pat", pick(rng, [0, 0, 0, 0.2, 1.0]))
+    d["pat"] = patp
+    tb = X64Tables(4, alloc, pat=(lambda: rng.random() < patp) if patp else None)
     if text is not None:
         # idle_pg_table lives in the Xen image
         root_va = text + tsize - 0x3000
